@@ -2,6 +2,7 @@
    logic of two parsers; the run-time behaviour of the C code is observed under sanitizers *)
 From E2V Require Import Parsers.DirWalk Parsers.DirWalkProofs Parsers.EaValue.
 From E2V Require Import Robust.Restart Robust.RestartProofs Robust.ItableLen Robust.ItableLenProofs.
+From E2V Require Import Robust.MinGroups Robust.MinGroupsProofs.
 Local Open Scope N_scope.
 
 (* the directory record walk never reads outside its buffer and always ends, whatever the bytes are *)
@@ -89,3 +90,16 @@ Proof. vm_compute. repeat split; reflexivity. Qed.
 
 Example walk_example : dir_block_walk ([2;0;0;0; 12;0; 1;2; 46;0;0;0] ++ [2;0;0;0; 20;0; 2;2; 46;46;0;0] ++ repeat 0 8) 32 = WOk 2.
 Proof. vm_compute. reflexivity. Qed.
+
+(* resize2fs -P: the number of groups its estimate starts from names an existing group descriptor - for every inode count that
+   is a whole number of groups and every (however damaged) free inode count - or the estimate stops before any lookup *)
+Theorem min_size_group_lookup_in_range : forall ipg gcount free,
+  (0 < ipg)%N -> lookup_in_range gcount (min_groups_new (ipg * gcount) free ipg) = true.
+Proof. exact min_groups_new_in_range. Qed.
+Print Assumptions min_size_group_lookup_in_range.
+
+(* before the repair: free = total gives group 0 - 1, free > total a group far beyond the table *)
+Theorem min_size_group_lookup_old_refuted : exists ipg gcount free,
+  (0 < ipg)%N /\ lookup_in_range gcount (min_groups_old (ipg * gcount) free ipg) = false.
+Proof. exists 2048%N, 2%N, 4096%N. split; [reflexivity|]. exact (proj1 min_groups_old_refuted). Qed.
+Print Assumptions min_size_group_lookup_old_refuted.
